@@ -49,6 +49,9 @@ def run(ck, ctx):
     ck.rule("R13.14", _c06t.DELTA_TEXT + " (shared with C06 R06.10: compaction keeps one delta per key, so a partial delta erases the rest of the value)")
     from . import c12 as _c12i
     ck.rule("R13.16", _c12i.IDS_TEXT + " (shared with C12 R12.11: compaction is one of the two writers of the counter)")
+    ck.rule("R13.17", "compaction deletes only what it folded: the key handed to ObjectStore::delete in compaction code comes from the segment entries "
+                      "compaction itself read and unlisted - never from a listing of the store (an object that no manifest references *yet* is a "
+                      "concurrent flush's freshly uploaded segment: its manifest save follows, and then lists an object that is gone)")
     ck.rule("R13.15", "a manifest save that reports success has installed *its* manifest: put(temp) Ok-dominates rename(temp, manifest) and both "
                       "errors are propagated - a rename failure (e.g. NotFound because a concurrent writer consumed the shared temp object) is "
                       "never turned into success, or compaction deletes inputs that the installed manifest still lists (shared with C12 R12.3)")
@@ -74,6 +77,7 @@ def run(ck, ctx):
         from . import c06 as _c06
         _c06.r0610(ck, prog, cfg, "R13.14")
         c12.ids_rule(ck, prog, cfg, "R13.16")
+        _r1317(ck, prog, cfg)
 
 
 def _wall_clock_locals(fn):
@@ -464,3 +468,25 @@ def _r1310(ck, prog, cfg):
             n += 1
     ck.check(n >= 1, "R13.10", "compact:ttl-whole-duration" + _tag(cfg),
              "the tombstone cutoff is not computed from Duration::as_millis/as_secs of config.tombstone_ttl", fn.where(), detail="as_millis(tombstone_ttl)")
+
+
+# ------------------------------------------------------------------------------------------------
+def _r1317(ck, prog, cfg):
+    from .c10 import _taint
+    n = 0
+    for f in prog.lib_fns():
+        if f.file != "src/streaming/compaction.rs" or "::tests::" in f.id:
+            continue
+        dels = [(b, t) for b, t in f.calls() if is_callee(t, r"ObjectStore>::delete$", r"ObjectStore::delete$") and len(t["args"]) >= 2]
+        if not dels:
+            continue
+        lists = {t["dest"]["l"] for b, t in f.calls() if is_callee(t, r"ObjectStore>::list$", r"ObjectStore::list$", r"ObjectStore>::list_with_meta$") and "p" not in t["dest"]}
+        tainted = _taint(f, lists) if lists else set()
+        for k, (b, t) in enumerate(dels):
+            n += 1
+            l = op_local(t["args"][1])
+            ck.check(l not in tainted, "R13.17", "%s:delete#%d%s" % (re.sub(r"::\{closure#\d+\}", "", f.id).rsplit("::", 1)[-1], k, _tag(cfg)),
+                     "compaction deletes an object whose key comes from a listing of the store: anything the manifest it has just saved does not "
+                     "reference is removed, including the segment a concurrent flush has uploaded but not yet registered", f.where(t["ln"]),
+                     detail="deleted key comes from the folded segment entries")
+    ck.floor("R13.17" + _tag(cfg), n, 2)
